@@ -6,7 +6,7 @@ ROOT = os.path.dirname(os.path.dirname(os.path.abspath(__file__)))
 CHECKS = {
  "C12": dict(
    technique="property-based print/re-check testing with bisimulation of type graphs, over generated programs and Rust-exported environments (proptest)",
-   text="Generated well-typed programs (every constructor, odd labels and method names, recursion, aliases, service constructors) are checked from text printed with random shorthands; the type-level printer, the doc-carrying printer and the syntax-tree printer must each produce text that re-checks to an interface bisimilar to the original with the same definition names; service_equal, instantiate_candid and get_metadata must agree; printing is deterministic; environments exported from ~230 Rust types are treated likewise. Exploration.",
+   text="Generated well-typed programs (every constructor, odd labels and method names, recursion, aliases, service constructors) are checked from text printed with random shorthands; the type-level printer, the doc-carrying printer and the syntax-tree printer must each produce text that re-checks to an interface bisimilar to the original with the same definition names; service_equal, instantiate_candid and get_metadata must agree; printing is deterministic; environments exported from ~245 Rust types (each alone and after its neighbour on a fresh thread, plus generated histories) are treated likewise. Exploration.",
    note="Equality is bisimilarity computed by the harness; the harness's own emitter is validated against the checker in the same run (checker-misreads-program).",
    ref="DESIGN.md §5 C12"),
  "C14": dict(
@@ -16,7 +16,7 @@ CHECKS = {
    ref="DESIGN.md §5 C14"),
  "C15": dict(
    technique="property-based cross-entry-point consistency testing against an independent hash (proptest + fixed derive/macro checks)",
-   text="For label strings from adversarial pools, the library hash, Label equality/order/hash, text values, .did types, typed encoding/decoding and duplicate rejection are checked against the spec hash computed independently; the derive macro's private hash is observed through _ty_doc() keys of documented structs/enums with renamed/raw/non-ASCII/numeric names; record!/variant! ordering and duplicate panics; 14 colliding pairs. Exploration over labels.",
+   text="For label strings from adversarial pools, the library hash, Label equality/order/hash, text values, .did types, typed encoding/decoding and duplicate rejection are checked against the spec hash computed independently; positional shorthand after a named field (values and types); duplicate and descending ids at boundary values in binary headers (records and variants); the derive macro's private hash is observed through _ty_doc() keys of documented structs/enums with renamed/raw/non-ASCII/numeric names; record!/variant! ordering and duplicate panics; 14 colliding pairs. Exploration over labels.",
    note="The derive macro can only be observed for names fixed at compile time.",
    ref="DESIGN.md §5 C15"),
  "C17": dict(
@@ -26,12 +26,12 @@ CHECKS = {
    ref="DESIGN.md §5 C17"),
  "C18": dict(
    technique="property-based translation checking by compilation: emitted Rust bindings for generated programs are compiled in batches with rustc and their types compared with the source by bisimulation (proptest + cargo)",
-   text="Generated checked programs (definition names from Rust keywords, prelude/candid names and case-conversion twins, odd labels, numeric ids, recursion, anonymous types at every path, init arguments) are translated by the Rust binding generator; each output becomes a module of one batch crate that is compiled by rustc; a module that does not compile is attributed to its program; every compiled module exports, through TypeContainer, the Candid type of each method argument/result, init argument and definition, which must be bisimilar to the source program's. Four regions where the generator is known to deviate are tolerated by exact signature and counted. Exploration: hundreds of programs per quick run.",
+   text="Generated checked programs (definition names from Rust keywords, prelude/candid names and case-conversion twins, odd labels, numeric ids, recursion, anonymous types at every path, init arguments, result-like variants in six spellings, anonymous types whose generated name is also a source definition) are translated by the Rust binding generator; each output becomes a module of one batch crate that is compiled by rustc; a module that does not compile is attributed to its program; every compiled module exports, through TypeContainer, the Candid type of each method argument/result, init argument and definition, which must be bisimilar to the source program's. Four regions where the generator is known to deviate are tolerated by exact signature and counted. Exploration: hundreds of programs per quick run.",
    note="Only the type-level content of the binding is judged (the emitted call stubs are compiled, not executed); agent/stub targets are covered lexically in C19.",
    ref="DESIGN.md §5 C18"),
  "C19": dict(
    technique="property-based totality/determinism testing plus lexical and name-set closure checks and a doc-comment injection metamorphic relation (proptest, per-language lexers)",
-   text="All four generators (Rust in three targets) run on generated checked programs printed once with benign and once with hostile doc comments: no panic, identical output on re-run, output lexes and balances under the target's lexical grammar, token streams outside comments are identical for both doc texts, TypeScript/Motoko names are closed and unique, service methods appear exactly once, string literals decode to program names. Exploration; no TypeScript/Motoko compiler is available.",
+   text="All four generators (Rust in three targets) run on generated checked programs printed once with benign and once with hostile doc comments: no panic, identical output on re-run, output lexes and balances under the target's lexical grammar, token streams outside comments are identical for both doc texts, TypeScript/Motoko names are closed and unique, the JavaScript module evaluates under module rules (C17's interpreter), service methods appear exactly once (TypeScript interface, Motoko actor type, Rust call sites), string literals decode to program names. Exploration; no TypeScript/Motoko compiler is available.",
    note="Closure is structural (lexers and name sets), weaker than compiling; Rust is compiled in C18 and JavaScript evaluated in C17.",
    ref="DESIGN.md §5 C19"),
  "C20": dict(
@@ -51,22 +51,22 @@ CHECKS = {
    ref="DESIGN.md §5 C13"),
  "C04": dict(
    technique="property-based implication testing: checker-accepted pairs must decode (untyped and native), plus a metamorphic chain relation (proptest)",
-   text="For generated (environment, t, t') pairs that the implementation's subtype check accepts (upgrade-step chains and independent types), generated inhabitants of t encoded by two encoders must decode at t' to a value of t'; for chains t <: t' <: t'' the direct and the two-step result must be related by opt v ~ null. Natively, every ordered pair of ~230 corpus Rust types that the checker relates is exercised with generated values. Exploration over generated pairs and values.",
+   text="For generated (environment, t, t') pairs that the implementation's subtype check accepts (upgrade-step chains and independent types), generated inhabitants of t (also old/new copies of an environment with one edit, where the checker probes below opt) encoded by two encoders must decode at t' to a value of t'; for chains t <: t' <: t'' the direct and the two-step result must be related by opt v ~ null. Natively, every ordered pair of ~230 corpus Rust types that the checker relates is exercised with generated values. Exploration over generated pairs and values.",
    note="Only the implication checker => decoder is judged here; the checker's own answers are C05. Four regions shared with C02/C08/C10 findings are tolerated by exact signature.",
    ref="DESIGN.md §5 C04"),
  "C05": dict(
    technique="enumeration of a small type universe + property-based differential testing against a greatest-fixed-point subtype solver, with metamorphic order/name/history variants (proptest)",
-   text="The subtype check is compared with an independent greatest-fixed-point computation of the spec's rules on every ordered pair of a 150-type (thorough: 296-type) universe under single-definition recursive environments, each pair with a fresh memo and with a memo shared along the row, and on generated environments of up to 6 mutually recursive definitions including old/new interface copies with one edit; laws (reflexivity, transitivity where the spec relation has it, equality vs bisimilarity) and the text entry points with reordered/renamed definitions are checked on the same cases. Exhaustive only for the stated small universe; exploration beyond.",
+   text="The subtype check is compared with an independent greatest-fixed-point computation of the spec's rules on every ordered pair of a 150-type (thorough: 296-type) universe under single-definition recursive environments, each pair with a fresh memo and with a memo shared along the row, and on generated environments of up to 6 mutually recursive definitions including old/new interface copies with one edit, inline structural types below opt, names unfolded out of phase, and (for the text entry points) separate old and new programs that share definition names; laws (reflexivity, transitivity where the spec relation has it, equality vs bisimilarity) and the text entry points with reordered/renamed definitions are checked on the same cases. Exhaustive only for the stated small universe; exploration beyond.",
    note="Trusts the harness's reading of the subtype rules (60 lines); OptReport::Error mode is not judged; transitivity is not demanded when an outer type mentions `null` (the spec relation itself is not transitive there).",
    ref="DESIGN.md §5 C05"),
  "C06": dict(
    technique="property-based robustness testing / structure-aware fuzzing of all decoder entry points with crash attribution, allocation metering and two build profiles (proptest)",
-   text="Generated hostile and mutated messages (random bytes, mutated valid messages, hostile headers with huge counts, 20 000-deep nesting, zero-sized-element bombs, over-long LEB128) are decoded at ~230 native types, generated untyped types and with no type, under quota/error-message/table-size configurations and thread stacks down to 256 KiB, in a debug-assertion and a release-like build, in worker processes so that a stack overflow or abort is attributed to its input. With a decoding quota, peak and single-request allocation on the decoding thread are bounded by explicit linear formulas. Exploration; absence of crashes is not established.",
+   text="Generated hostile and mutated messages (random bytes, mutated valid messages, hostile headers with huge counts, 20 000-deep nesting, zero-sized-element bombs, length bombs on every length-prefixed item incl. future-type values - also enumerated: 10 752 combinations of item x declared length x target x quota -, over-long LEB128) are decoded at ~230 native types, generated untyped types and with no type, under quota/error-message/table-size configurations and thread stacks down to 256 KiB, in a debug-assertion and a release-like build, in worker processes so that a stack overflow or abort is attributed to its input. With a decoding quota, peak and single-request allocation on the decoding thread are bounded by explicit linear formulas. Exploration; absence of crashes is not established.",
    note="No step-counter hook: work proportional to the quota is judged by termination and allocation (C07 adds per-value cost lower bounds); a hang becomes exit 2 (inconclusive).",
    ref="DESIGN.md §5 C06"),
  "C07": dict(
    technique="property-based metamorphic testing over quota pairs around the measured cost, with cost lower/upper bounds from an independent coercion trace and cost model (proptest)",
-   text="For valid generated messages (untyped with related/unrelated expected types; native corpus types on own and foreign messages; 1e3-1e5 zero-sized elements), decoding under quota pairs around the measured cost must succeed exactly at or above the cost, return the unmetered result and report the same cost; cost is bounded below by the number of wire values (skipped ones charged to the skipping quota) and above by 16x the documented model. Exploration.",
+   text="For valid generated messages (untyped with related/unrelated expected types; native corpus types on own and foreign messages, with surplus arguments or record fields, through IDLDeserialize, decode_args_with_config_debug and Decode!(@Debug); argument sequences mixing IDLValue and native reads; 1e3-1e5 zero-sized elements), decoding under quota pairs around the measured cost must succeed exactly at or above the cost, return the unmetered result and report the same cost; cost is bounded below by the number of wire values (skipped ones charged to the skipping quota, also natively) and above by 16x the documented model (per argument: 50x for skipped or untyped ones); the skipping cost is bounded above likewise. Exploration.",
    note="Failures are classified by 'succeeds unmetered, fails metered', not by message text; the documented model is evaluated by the harness.",
    ref="DESIGN.md §5 C07"),
  "C01": dict(
@@ -76,12 +76,12 @@ CHECKS = {
    ref="DESIGN.md §5 C01"),
  "C03": dict(
    technique="property-based testing of the encoder against an independent strict decoder of the binary grammar (proptest)",
-   text="Every generated encoder call (corpus values through three native APIs, multi-argument builders, untyped values with generated recursive environments) is parsed by an independent decoder in strict mode (composite-only table, ascending ids/names, minimal LEB128, little-endian widths, variant index matching the value's tag) and must yield bisimilar argument types and the abstract values computed from the inputs; re-encoding gives identical bytes. Exploration over generated types and values.",
+   text="Every generated encoder call (corpus values of ~245 Rust types incl. vectors of wrapper types and a 70-entry type table through three native APIs, multi-argument builders, untyped values in canonical and user form with generated recursive environments and type tables of 60-140 entries) is parsed by an independent decoder in strict mode (composite-only table, ascending ids/names, minimal LEB128, little-endian widths, variant index matching the value's tag) and must yield bisimilar argument types and the abstract values computed from the inputs; re-encoding gives identical bytes. Exploration over generated types and values.",
    note="Trusts the harness's decoder (refmodel::rwire) as the reading of the binary grammar; table layout is not constrained beyond the grammar.",
    ref="DESIGN.md §5 C03"),
  "C08": dict(
    technique="property-based differential testing, native vs untyped decoding, with upgrade-neighbour and layout-twin wire types (proptest)",
-   text="For each corpus Rust type T and generated message (T's own type, upgrade neighbours, layout twins such as text/blob/vec int8/principal or nat/natN), Decode! at T and untyped decoding at T's exported Candid type must agree on acceptance and on the abstract value; 128-bit host limits and BoundedVec limits are predicted from the untyped value. Three regions where they are known to disagree are excluded by construction and counted (known findings). Exploration.",
+   text="For each corpus Rust type T and generated message (T's own type, upgrade neighbours, layout twins such as text/blob/vec int8/principal or nat/natN), Decode! at T and untyped decoding at T's exported Candid type must agree on acceptance and on the abstract value; 128-bit host limits and BoundedVec limits are predicted from the untyped value. In three regions where they are known to disagree (open findings) exactly the recorded direction is tolerated by signature and counted; the opposite direction is still judged. Also: hand-made vector messages with foreign element codes for &[u8]/&str, and a fixed-size array followed by another argument. Exploration.",
    note="T's Candid type is exported by TypeContainer; BoundedVec data sizes follow the documented DataSize; error messages are used only to classify known findings, never for verdicts.",
    ref="DESIGN.md §5 C08"),
  "C10": dict(
@@ -91,7 +91,7 @@ CHECKS = {
    ref="DESIGN.md §5 C10"),
  "C02": dict(
    technique="property-based differential testing against an independent binary-format parser and coercion function (proptest, byte mutation)",
-   text="Differential search: the untyped decoder (from_bytes_with_types, get_value_with_type+done, from_bytes) is compared on generated (message, expected types) pairs with an independent implementation of the binary grammar and of the spec's coercion relation (subtyping for references as a greatest fixed point). Messages come from the harness's own encoder over random recursive wire types with layout variations and byte mutations; expected types are upgrade-step neighbours in both directions, opt-wrappings and fresh types. Exploration: deep combinations are sampled; two genuine deviations are listed as known findings.",
+   text="Differential search: the untyped decoder (from_bytes_with_types, get_value_with_type+done, from_bytes) is compared on generated (message, expected types) pairs with an independent implementation of the binary grammar and of the spec's coercion relation (subtyping for references as a greatest fixed point). Messages come from the harness's own encoder over random recursive wire types with layout variations and byte mutations; expected types are upgrade-step neighbours in both directions, opt-wrappings, fresh types, and several references read at optional references over an edited copy of a mutually recursive environment (back-tracking with a shared subtype memo). Exploration: deep combinations are sampled; one genuine deviation is listed as a known finding. Thorough tier adds a libFuzzer stage over the same case function.",
    note="Trusts the harness's reading of spec/Candid.md (refmodel, ~2 kLoC); cases the spec leaves open are skipped and counted, not judged.",
    ref="DESIGN.md §5 C02"),
  "C09": dict(
@@ -101,7 +101,7 @@ CHECKS = {
    ref="DESIGN.md §5 C09"),
  "C16": dict(
    technique="enumeration + property-based differential testing against an own CRC-32/base32 principal codec (proptest)",
-   text="Differential search against an independent implementation of the textual principal format: all byte strings of length <= 2 with systematic single edits of their text, random strings up to 40 bytes with random edits (substitution, case, dash moves, truncation, extension). Acceptance must coincide with 'lower-case form is the canonical text'. Exploration: longer principals are sampled, not enumerated.",
+   text="Differential search against an independent implementation of the textual principal format: all byte strings of length <= 2 with systematic single edits of their text, random strings up to 40 bytes with random edits (substitution incl. non-ASCII characters whose Unicode case mapping is the replaced letter, case, dash moves, truncation, extension). Acceptance must coincide with 'lower-case form is the canonical text'. Exploration: longer principals are sampled, not enumerated.",
    note="Trusts the harness's CRC-32/base32 implementation (validated against the IC spec's published vectors in unit tests).",
    ref="DESIGN.md §5 C16"),
 }
